@@ -6,8 +6,8 @@
    Model/Once.v (syncutil.Once), tied to the Go code by the correspondence run. *)
 From Coq Require Import Sorting.Sorted Sorting.Permutation.
 From Oras Require Import Base.Prelude Generated.GC16
-  Model.Scopes Model.Challenge Model.AuthClient Model.Once
-  Proofs.Scopes Proofs.ScopesIdem Proofs.AuthClient Proofs.AuthHistory Proofs.Once.
+  Model.Scopes Model.Challenge Model.AuthClient Model.Once Model.CacheSet
+  Proofs.Scopes Proofs.ScopesIdem Proofs.AuthClient Proofs.AuthHistory Proofs.Once Proofs.CacheSet.
 
 (* ================= scope sets: the canonical cache key ================= *)
 
@@ -241,3 +241,51 @@ Example C16_once_example :
   /\ once_accepts [OAcquire 1; OAcquire 2] = false
   /\ once_accepts [OAcquire 1; ODone 1 5; OReadClosed 2 6] = false.
 Proof. vm_compute. auto. Qed.
+
+(* ================= concurrentCache.Set: sharing across calls ================= *)
+
+(* shared cache, any number of concurrent Set calls, any interleaving of
+   LoadOrStore / Once steps / Delete: the token a call returns was fetched by a
+   call with the same (registry, scheme, scope key) *)
+Theorem C16_set_shared_result :
+  forall calls, (forall g, csrc (calls g) = None) ->
+    forall tr st g v, crun calls cinit tr = Some st ->
+      nget (results st) g = Some v -> ck (calls v) = ck (calls g).
+Proof. exact shared_set_result_same_key. Qed.
+Print Assumptions C16_set_shared_result.
+
+(* with constant-function calls in the mix (the host-only follow-up Set of the
+   single-context cache) the statement holds for every key on which only real
+   fetches run -- every key but the empty scope key *)
+Theorem C16_set_shared_result_partial :
+  forall calls K, (forall g, ck (calls g) = K -> csrc (calls g) = None) ->
+    forall tr st g v, crun calls cinit tr = Some st ->
+      nget (results st) g = Some v -> ck (calls g) = K -> ck (calls v) = K.
+Proof. exact set_result_same_key. Qed.
+Print Assumptions C16_set_shared_result_partial.
+
+(* before fix 2f4b15f fallbackCache.Set returned the result of its follow-up call:
+   a token fetched for another scope key *)
+Theorem C16_single_cache_set_prefix_refuted :
+  let calls := table_calls [(1, mkCall kx None); (2, mkCall k0 (Some 1));
+                            (3, mkCall ky None); (4, mkCall k0 (Some 3))] in
+  exists tr st, crun calls cinit tr = Some st /\
+    nget (results st) 4 = Some 1 /\ ck (calls 3) = ky /\ ck (calls 1) = kx /\ kx <> ky.
+Proof. exact fallback_prefix_refuted. Qed.
+Print Assumptions C16_single_cache_set_prefix_refuted.
+
+(* known finding (current code): with the EMPTY scope key the first call of the
+   single-context cache shares its status key with follow-up calls *)
+Theorem C16_single_cache_empty_key_refuted :
+  let calls := table_calls [(1, mkCall kx None); (2, mkCall k0 (Some 1)); (3, mkCall k0 None)] in
+  exists tr st, crun calls cinit tr = Some st /\
+    nget (results st) 3 = Some 1 /\ ck (calls 3) = k0 /\ ck (calls 1) = kx /\ kx <> k0.
+Proof. exact fallback_empty_key_refuted. Qed.
+Print Assumptions C16_single_cache_empty_key_refuted.
+
+Example C16_set_share_example :
+  let calls := table_calls [(1, mkCall kx None); (2, mkCall kx None)] in
+  exists st, crun calls cinit
+    [CLoad 1; COnce 1 (OAcquire 1); CLoad 2; COnce 1 (ODone 1 1); COnce 2 (OReadClosed 2 1); CDelete 1] = Some st /\
+    nget (results st) 1 = Some 1 /\ nget (results st) 2 = Some 1.
+Proof. exact set_share_example. Qed.
